@@ -455,6 +455,7 @@ static int get_operands(
               printf("Error: Instruction cannot have modifier at %s:%d\n",
                 asm_context->tokens.filename,
                 asm_context->tokens.line);
+              return -1;
             }
 
             operands[operand_count].type = OPERAND_OFFSET_BASE;
